@@ -93,6 +93,16 @@ def handleObs (line : String) (toks : List String) : M Unit := do
       count "pos" line
       expectEq "pos" exp res
     | none => parseError line
+  | [_impl, "posbatch", hs, res] =>
+    -- MapPollard.GetLeafHashPositions: per hash the position of the live tracked leaf, 0 otherwise
+    match parseHashes hs with
+    | some hl =>
+      let exp := hl.map (fun h => match I.posOf h with
+        | some p => enc rows p
+        | none => 0)
+      count "posbatch" line (exp.any (· != 0))
+      expectEq "posbatch" (nats exp) res
+    | none => parseError line
   | [impl, "hash", p, res] =>
     match p.toNat? with
     | some pp =>
